@@ -468,6 +468,10 @@ fn c06_hist(input: &Input, obs: &mut Obs) -> Result<(), Fail> {
                 let mut c = c05_call(&mut s, k);
                 if let Call::SetBody(b) = &mut c {
                     b.truncate(8192);
+                    if s.chance(6) {
+                        // now and then a response larger than anything a single write usually takes
+                        *b = filler(0, s.u8(), s.range(60_000, 140_000));
+                    }
                 }
                 calls.push(c);
             }
@@ -982,30 +986,55 @@ fn c12_ss(input: &Input, obs: &mut Obs) -> Result<(), Fail> {
         obs.excluded = true;
         return Ok(());
     }
+    let extra: Vec<usize> = reqs.iter().filter(|r| r.complete_at != usize::MAX).map(|r| r.complete_at).collect();
+    let bounds = boundaries(&stream, &extra);
+    let total = stream.len();
+    let mut eof_done = false;
+    let mut guardn = 0usize;
+    let mut decide = |run: &ConnRun, total_fds: usize| -> Option<(ReadEv, usize)> {
+        if !((run.remaining() > 0 || (!eof_done && s.chance(40))) && guardn < 4 * total + 64) {
+            return None;
+        }
+        guardn += 1;
+        let ctx = SchedCtx { consumed: run.consumed, total, window: buf_size(), bounds: &bounds };
+        let ev = if run.remaining() == 0 {
+            eof_done = true;
+            ReadEv::Eof { fds: vec![] }
+        } else {
+            next_read(&mut s, &ctx, 24)
+        };
+        let nf = match s.weighted(&[30, 8, 5, 1]) {
+            0 => 0,
+            1 => 1,
+            2 => s.range(2, 6),
+            _ => if total_fds < 300 { 253 } else { 2 },
+        };
+        Some((ev, nf))
+    };
+    let r = c12_core(&stream, &mut decide, obs);
+    let npipes = r.as_ref().map(|n| *n).unwrap_or(0);
+    r?;
+    obs.case_hash = Some(fnv64(input.bytes()));
+    if obs.want_render {
+        obs.render = format!("stream[{}]=\"{}\" descriptors={} labels={:?}", stream.len(), esc(&stream), npipes, obs.labels);
+    }
+    Ok(())
+}
+
+/// Drive one connection over `stream`; `decide` supplies each read and the number of
+/// descriptors that ride on it. Returns the number of descriptors created.
+fn c12_core(stream: &[u8], decide: &mut dyn FnMut(&ConnRun, usize) -> Option<(ReadEv, usize)>, obs: &mut Obs) -> Result<usize, Fail> {
     let base_fds = fd_count();
     let mut pipes: Vec<Pipe> = Vec::new();
     let result = (|| -> Result<(), Fail> {
-        let mut run = ConnRun::new(stream.clone(), None, false);
+        let mut run = ConnRun::new(stream.to_vec(), None, false);
         run.keep = true;
-        let extra: Vec<usize> = reqs.iter().filter(|r| r.complete_at != usize::MAX).map(|r| r.complete_at).collect();
-        let bounds = boundaries(&stream, &extra);
         let mut pool: Vec<u32> = Vec::new(); // tags waiting at the connection
         let mut expected: Vec<Vec<u32>> = Vec::new(); // per delivered request
         let mut next_tag = 1u32;
         let mut total_fds = 0usize;
-        let mut guardn = 0;
-        let mut eof_done = false;
-        while (run.remaining() > 0 || (!eof_done && s.chance(40))) && guardn < 4 * stream.len() + 64 {
-            guardn += 1;
-            let ctx = SchedCtx { consumed: run.consumed, total: stream.len(), window: buf_size(), bounds: &bounds };
-            let mut ev = if run.remaining() == 0 { ReadEv::Eof { fds: vec![] } } else { next_read(&mut s, &ctx, 24) };
-            // descriptors for this read
-            let nf = match s.weighted(&[30, 8, 5, 1]) {
-                0 => 0,
-                1 => 1,
-                2 => s.range(2, 6),
-                _ => if total_fds < 300 { 253 } else { 2 },
-            };
+        while let Some((ev0, nf)) = decide(&run, total_fds) {
+            let mut ev = ev0;
             let mut these: Vec<usize> = Vec::new();
             if nf > 0 {
                 if let ReadEv::Data { .. } | ReadEv::Eof { .. } = ev {
@@ -1041,7 +1070,6 @@ fn c12_ss(input: &Input, obs: &mut Obs) -> Result<(), Fail> {
                 }
             }
             if is_eof {
-                eof_done = true;
                 if handed > 0 {
                     obs.label("arrival_on_eof_read");
                 }
@@ -1144,11 +1172,52 @@ fn c12_ss(input: &Input, obs: &mut Obs) -> Result<(), Fail> {
     if now != base_fds {
         return Err(Fail::new("C12:fd-count", format!("/proc/self/fd has {} entries, {} before the case", now, base_fds)));
     }
-    obs.case_hash = Some(fnv64(input.bytes()));
+    Ok(pipes.len())
+}
+
+/// every descriptor count 0..=253 on one read: params = [k, placement]
+/// placement 0: with the whole first request; 1: with its first bytes only; 2: k split over two
+/// reads; 3: on a would-be-last read that completes two requests; 4: on the zero-byte read
+fn c12_count(input: &Input, obs: &mut Obs) -> Result<(), Fail> {
+    let p = input.params();
+    let k = p[0] as usize;
+    let placement = p[1];
+    let r1: &[u8] = b"PUT /x HTTP/1.1\r\nContent-Length: 3\r\n\r\nabc";
+    let r2: &[u8] = b"GET /y HTTP/1.1\r\n\r\n";
+    let mut stream = r1.to_vec();
+    stream.extend_from_slice(r2);
+    // (want, nfds) per read; an entry with want 0 is the zero-byte read
+    let plan: Vec<(usize, usize)> = match placement {
+        0 => vec![(r1.len(), k), (r2.len(), 0)],
+        1 => vec![(5, k), (r1.len() - 5, 0), (r2.len(), 1)],
+        2 => vec![(7, k / 2), (r1.len() - 7, k - k / 2), (r2.len(), 0)],
+        3 => vec![(r1.len() + r2.len(), k)],
+        _ => vec![(r1.len(), 1), (r2.len(), 0), (0, k)],
+    };
+    let mut i = 0;
+    let mut decide = |_run: &ConnRun, _t: usize| -> Option<(ReadEv, usize)> {
+        let (want, nf) = *plan.get(i)?;
+        i += 1;
+        Some(if want == 0 { (ReadEv::Eof { fds: vec![] }, nf) } else { (ReadEv::Data { want, fds: vec![] }, nf) })
+    };
+    c12_core(&stream, &mut decide, obs)?;
+    obs.nontrivial = k >= 2;
     if obs.want_render {
-        obs.render = format!("stream[{}]=\"{}\" descriptors={} labels={:?}", stream.len(), esc(&stream), pipes.len(), obs.labels);
+        obs.render = format!("{} descriptors, placement {}", k, placement);
     }
     Ok(())
+}
+
+fn c12_count_enum(_tier: Tier, shard: u64, nshards: u64, f: &mut dyn FnMut(&[u64]) -> bool) {
+    let mut c = 0u64;
+    for k in 0..=253u64 {
+        for placement in 0..5u64 {
+            c += 1;
+            if c % nshards == shard && !f(&[k, placement]) {
+                return;
+            }
+        }
+    }
 }
 
 /// real socketpair with SCM_RIGHTS: conservation only
@@ -1291,13 +1360,14 @@ fn c12_plan(tier: Tier) -> Vec<Job> {
         Job { sub: "ss", kind: JobKind::Pbt { cases: if q { 80_000 } else { 1_500_000 }, max_len: 900 }, smallbuf: false },
         Job { sub: "ss", kind: JobKind::Pbt { cases: if q { 10_000 } else { 200_000 }, max_len: 700 }, smallbuf: true },
         Job { sub: "socket", kind: JobKind::Pbt { cases: if q { 4_000 } else { 60_000 }, max_len: 500 }, smallbuf: false },
+        Job { sub: "count", kind: JobKind::Enum { f: c12_count_enum, bound: "every descriptor count 0..253 x 5 placements (with the whole request, with its first bytes, split over two reads, on a read completing two requests, on the zero-byte read)" }, smallbuf: false },
     ]
 }
 
 pub fn c12() -> PropDef {
     PropDef {
         id: "C12",
-        subs: vec![("ss", c12_ss), ("socket", c12_socket)],
+        subs: vec![("ss", c12_ss), ("socket", c12_socket), ("count", c12_count)],
         plan: c12_plan,
         rule: "case = error-free pipelined stream x read schedule x assignment of 0..253 real descriptors (tagged pipe read ends) to reads incl. reads completing 0/1/several requests and the zero-byte read; oracle = pool model (descriptors arriving with a read join a pool; the first request completed by that or a later read receives the whole pool in arrival order), identity by tag read from the descriptor, no number owned twice, open while owned, and after dropping requests and connection every kept write end reports EPIPE and /proc/self/fd is back to its baseline; second harness: real socketpair with SCM_RIGHTS (conservation and order); non-trivial = >=2 descriptors and >=2 requests with a descriptor arriving on a read that completes no request or several",
         assumptions: vec!["one case at a time per worker process (descriptor numbers are a per-process resource)", "streams whose REF outcome is a parse error are excluded and counted (C11 judges them)"],
